@@ -55,7 +55,7 @@ def main():
             name, parts = item
             try:
                 parts = [tuple(list(p) + [(), None][len(p) - 2:]) if len(p) < 4 else p for p in parts]
-                return name, core.Module(name, parts, outdir).build(), None
+                return name, core.Module(name, parts, outdir, copies=plan.get('module_copies', {}).get(name), ir2c_opts=plan.get('ir2c_opts', {}).get(name)).build(), None
             except core.Inconclusive as e:
                 return name, None, str(e)
         for name, m, err in core.parallel(list(plan['modules'].items()), build, args.workers):
